@@ -55,12 +55,12 @@ fn body(run: &Run, replay: Option<&Value>) {
     // (1) IntSet
     let q = run.tier == Tier::Quick;
     // (level-synchronous depth, stateright depth) per domain
-    let small_depth = std::env::var("C14_SMALL_DEPTH").ok().and_then(|s| s.parse().ok()).unwrap_or(if q { 5 } else { 6 });
+    let small_depth = std::env::var("C14_SMALL_DEPTH").ok().and_then(|s| s.parse().ok()).unwrap_or(if q { 4 } else { 6 });
     let small_members = domain::<Small>(run, small_depth, if q { 2 } else { 3 }, true);
     domain::<Even>(run, if q { 3 } else { 4 }, 2, false);
     // discontinuous domain whose holes straddle page boundaries
     domain::<Holes>(run, if q { 2 } else { 4 }, 2, false);
-    domain::<u8>(run, if q { 5 } else { 6 }, if q { 2 } else { 3 }, false);
+    domain::<u8>(run, if q { 4 } else { 6 }, if q { 2 } else { 3 }, false);
     domain::<u16>(run, if q { 2 } else { 3 }, 2, false);
     domain::<font_types::GlyphId16>(run, if q { 2 } else { 3 }, 2, false);
     domain::<font_types::NameId>(run, if q { 2 } else { 3 }, 2, false);
